@@ -48,7 +48,12 @@ pub fn c20_silent() {
     let cones_t = [SupportedConeT::NonnegativeConeT(2)];
     let mut ds = settings_f64();
     ds.presolve_enable = false;
-    let data = DefaultProblemData::<f64>::new(&P, &[0.0], &A, &[0.0, 0.0], &cones_t, &ds);
+    let mut data = DefaultProblemData::<f64>::new(&P, &[0.0], &A, &[0.0, 0.0], &cones_t, &ds);
+    // with or without an active presolve reduction (it has its own message in the configuration header)
+    if kani::any() {
+        dh::VPresolver::<f64>::from_parts(&cones_t, Some(vec![true, false]), 2, 1, 1e20).install(&mut data);
+    }
+    let reduced = dh::data_is_presolved(&data);
     let cones = cc::new_without_type_counts(&cones_t);
     assert!(info.print_configuration(&st, &data, &cones).is_ok());
     assert!(info.print_status_header(&st).is_ok());
@@ -56,7 +61,8 @@ pub fn c20_silent() {
     assert!(info.print_footer(&st).is_ok());
     assert!(dh::info_buffer_len(&info) == Some(0), "nothing_written_when_verbose_is_off");
     assert!(unsafe { FORMAT_CALLS } == 0, "nothing_is_even_formatted_when_verbose_is_off");
-    kani::cover!(info.status == SolverStatus::Solved && info.iterations == 7);
+    kani::cover!(info.status == SolverStatus::Solved && info.iterations == 7 && reduced, "presolve reduction active");
+    kani::cover!(!reduced, "no presolve reduction");
 }
 
 static mut STREAM_BUF: [u8; 16] = [0; 16];
